@@ -271,6 +271,100 @@ fn dynamic_mix(rng: &mut Rng, w: &mut World) {
   }
 }
 
+/// a resolver that accepts every package requirement except the listed names
+#[derive(Debug)]
+struct TableNpmResolver {
+  failing: Vec<String>,
+}
+
+#[async_trait::async_trait(?Send)]
+impl deno_graph::source::NpmResolver for TableNpmResolver {
+  fn load_and_cache_npm_package_info(&self, _package_name: &str) {}
+  async fn resolve_pkg_reqs(&self, package_reqs: &[deno_semver::package::PackageReq]) -> deno_graph::source::NpmResolvePkgReqsResult {
+    deno_graph::source::NpmResolvePkgReqsResult {
+      results: package_reqs
+        .iter()
+        .map(|r| if self.failing.iter().any(|f| *f == r.name.as_str()) { Err(deno_graph::NpmLoadError::PackageReqResolution(std::sync::Arc::new(deno_error::JsErrorBox::generic("no such package")))) } else { Ok(()) })
+        .collect(),
+      dep_graph_result: Ok(()),
+    }
+  }
+}
+
+/// with an npm resolver: every `npm:` specifier a followed dependency resolves to has an entry of
+/// its own (entries are keyed by the whole specifier, sub-path included), a package module or an error
+fn npm_resolver_part(report: &mut Report, rng: &mut Rng, n: usize) {
+  use deno_graph::source::MemoryLoader;
+  const POOL: &[&str] = &[
+    "npm:chalk@5",
+    "npm:chalk@5/sub",
+    "npm:chalk@5/other/deep.js",
+    "npm:chalk@^5.1",
+    "npm:@types/node@^20",
+    "npm:@types/node@^20/fs",
+    "npm:left-pad",
+    "npm:left-pad/index.js",
+    "npm:gone@1",
+    "npm:gone@1/x",
+  ];
+  for i in 0..n {
+    let nm = 1 + rng.below(3);
+    let mut loader = MemoryLoader::default();
+    let mut texts = vec![];
+    for k in 0..nm {
+      let mut t = String::new();
+      for j in 0..1 + rng.below(4) {
+        let s = POOL[rng.below(POOL.len())];
+        match rng.below(4) {
+          0 => t.push_str(&format!("const d{} = await import(\"{}\");\n", j, s)),
+          1 => t.push_str(&format!("import type {{ T{} }} from \"{}\";\n", j, s)),
+          _ => t.push_str(&format!("import * as n{} from \"{}\";\n", j, s)),
+        }
+      }
+      if k + 1 < nm {
+        t.push_str(&format!("import \"./m{}.ts\";\n", k + 1));
+      }
+      loader.add_source_with_text(format!("file:///m{}.ts", k), &t);
+      texts.push(t);
+    }
+    let kind = [GraphKind::All, GraphKind::CodeOnly, GraphKind::TypesOnly][i % 3];
+    let skip_dynamic = i % 5 == 4;
+    let resolver = TableNpmResolver { failing: if i % 2 == 0 { vec!["gone".into()] } else { vec![] } };
+    let mut g = ModuleGraph::new(kind);
+    crate::build::block_on(g.build(
+      vec![ModuleSpecifier::parse("file:///m0.ts").unwrap()],
+      vec![],
+      &loader,
+      deno_graph::BuildOptions { npm_resolver: Some(&resolver), skip_dynamic_deps: skip_dynamic, ..Default::default() },
+    ));
+    report.evaluations += 1;
+    let desc = json!({"modules": texts, "graph_kind": format!("{:?}", kind), "skip_dynamic_deps": skip_dynamic, "failing_npm_packages": resolver.failing});
+    for m in g.modules() {
+      for (text, d) in m.dependencies() {
+        if d.is_dynamic && skip_dynamic {
+          continue;
+        }
+        for (r, is_type) in [(&d.maybe_code, false), (&d.maybe_type, true)] {
+          if (is_type && !kind.include_types()) || (!is_type && kind == GraphKind::TypesOnly && !matches!(d.maybe_type, deno_graph::Resolution::None)) {
+            continue;
+          }
+          let Some(t) = ok_spec(r) else { continue };
+          if t.scheme() != "npm" {
+            continue;
+          }
+          report.count("npm-specifiers-followed-with-a-resolver");
+          match g.try_get(t) {
+            Ok(Some(Module::Npm(_))) | Err(_) => {}
+            Ok(Some(other)) => report.fail("oracle", "npm-specifier-entry-of-wrong-kind", format!("{} imports {:?}: the entry of {} is {:?}", m.specifier(), text, t, other.specifier()), desc.clone()),
+            Ok(None) => report.fail("oracle", "reachable-entry-absent", format!("{} imports {:?} ({}) and an npm resolver is present, but the graph has no entry for {}", m.specifier(), text, if d.is_dynamic { "dynamic" } else { "static" }, t), desc.clone()),
+          }
+        }
+      }
+    }
+    report.nontrivial.insert(format!("npm-resolver/{:?}/m{}/skipdyn{}", kind, nm, skip_dynamic as u8));
+  }
+}
+
 pub fn run(tier: &str, seed: u64) -> Report {
   let mut report = Report::new("C01");
   report.rule = "generated worlds (2-9 specifiers + forced redirect chains/cycles; file/https/http origins; every \
@@ -553,6 +647,7 @@ pub fn run(tier: &str, seed: u64) -> Report {
       }
     }
   }
+  npm_resolver_part(&mut report, &mut rng, if tier == "thorough" { 6000 } else { 600 });
   batch.finish(&mut report, "C01");
   report
 }
